@@ -211,6 +211,42 @@ def conc_domain(P, w):
     return {'ok': True}
 
 
+def sym_frompy(P, ex):
+    kind = P['kind']
+    reps = representatives(kind)
+    idx = [mbv._choose(ex, f'i{n}', 0, len(reps) - 1) for n in range(P['n'])]
+    r = conc_frompy(P, {f'i{n}': v for n, v in enumerate(idx)})
+    if not r['ok']:
+        ex.fail_here(r['why'])
+    ex.check(True)
+
+
+def conc_frompy(P, w):
+    """Collections built from Python objects are ordered by the Michelson order, not by the Python order of the raw objects."""
+    kind = P['kind']
+    reps = representatives(kind)
+    idx = [int(w[f'i{n}']) for n in range(P['n'])]
+    if len(set(idx)) != len(idx):
+        return {'ok': True, 'note': 'duplicate choice'}
+    texts = [reps[i][1] for i in idx]
+    rank = {reps[i][1]: reps[i][0] for i in idx}
+    if kind == 'address' and len({r[:2] for r in rank.values()}) != len(rank):
+        return {'ok': True, 'note': 'same destination with different entrypoints: order not asserted'}
+    exp = [t for t in sorted(texts, key=lambda t: rank[t])]
+    st = mich.T({'prim': 'set', 'args': [{'prim': kind}]})
+    mt = mich.T({'prim': 'map', 'args': [{'prim': kind}, {'prim': 'unit'}]})
+    try:
+        got_s = [x.value for x in st.from_python_object(list(texts)).items]
+        got_m = [k.value for k, _ in mt.from_python_object({t: None for t in texts}).items]
+        lit = st.from_python_object(list(texts)).to_micheline_value()
+        st.from_micheline_value(lit)
+    except Exception as e:  # noqa
+        return {'ok': False, 'why': f'{type(e).__name__}: {e} on {texts}', 'values': texts}
+    if got_s != exp or got_m != exp:
+        return {'ok': False, 'why': f'from_python_object order {got_s} / {got_m}, Tezos order {exp}', 'observed': [got_s, got_m], 'expected': exp}
+    return {'ok': True}
+
+
 def obligations(tier):
     q = tier == 'quick'
     t = 90 if q else 900
@@ -233,4 +269,8 @@ def obligations(tier):
         obs.append(Ob(f'domain/{kind}', 'bvx', sym_domain, conc_domain, {'kind': kind}, timeout=t * 2,
                       bounds=f'solver-chosen triples from {len(representatives(kind)) if kind else 0} real {kind} representatives covering every kind',
                       targets=TARGETS))
+    for kind in ('key_hash', 'address', 'key'):
+        obs.append(Ob(f'from-python/{kind}', 'bvx', sym_frompy, conc_frompy, {'kind': kind, 'n': 3}, timeout=t * 2,
+                      bounds=f'sets and maps built by from_python_object from solver-chosen triples of real {kind} representatives',
+                      targets=['pytezos.michelson.types.set.SetType.from_python_object', 'pytezos.michelson.types.map.MapType.parse_python_object']))
     return obs
